@@ -313,6 +313,27 @@ def Table.toStruct (h : Nat → Nat) (rank : Nat → Nat) (t : Table) : Struct :
   structEnd h rank ((liveOf t.data).foldl
     (fun b kv => match kv.key with | some k => structPut h rank true b k kv.val | none => b) (structBegin t.count))
 
+/-- the own entries of a table in bucket order (the order of `keys` / `pairs` / `eachp`), as `put` arguments -/
+def putsOf (t : Table) : List (KArg × Val) :=
+  (liveOf t.data).map (fun kv => (match kv.key with | some k => KArg.key k | none => KArg.nil, kv.val))
+
+/-- one level of boot.janet `freeze` on a table whose keys and values freeze to themselves:
+`(let [temp-tab @{}] (eachp [k v] x ... (put temp-tab kk new)) (table/to-struct temp-tab ...))` — distinct keys, so
+`old` is always nil and `new` is the value (source shape asserted by the translator) -/
+def freezeLevel (h : Nat → Nat) (rank : Nat → Nat) (t : Table) : Struct :=
+  (fromPuts h (putsOf t)).toStruct h rank
+
+/-- boot.janet `thaw` on an already flattened table whose keys and values thaw to themselves:
+`(walk-dict thaw (table/proto-flatten ds))` = a fresh `@{}` filled by `put` in iteration order -/
+def thawFlat (h : Nat → Nat) (flat : Table) : Table := fromPuts h (putsOf flat)
+
+/-- `struct/with-proto` applied to the entries of `s` in iteration order: `janet_struct_begin(length)`, one
+`janet_struct_put` per entry, `janet_struct_end`, prototype link `p` -/
+def Struct.withProto (h : Nat → Nat) (rank : Nat → Nat) (s : Struct) (p : Option Nat) : Struct :=
+  { structEnd h rank ((liveOf s.data).foldl
+      (fun b kv => match kv.key with | some k => structPut h rank true b k kv.val | none => b) (structBegin s.length))
+    with proto := p }
+
 /-- `janet_struct_find`: no tombstones in structs; first nil-key bucket or the key -/
 def structFind (h : Nat → Nat) (data : Array Slot) (k : Nat) : Option Nat :=
   let cap := data.size
